@@ -54,6 +54,69 @@ def correspond(ctx):
         rec = sum(np.trace(dk.conj().T @ j) * bk for dk, bk in zip(duals, choi))
         if not np.allclose(rec, j, atol=1e-10):
             ctx.mismatch("dual frame reconstruction sum_a <D_a,J> B_a = J", "random J", float(np.max(np.abs(rec - j))), 0.0)
+    bookkeeping_correspondence(ctx)
+
+
+def bookkeeping_trace(rng, k_steps, ntraj):
+    """tomography.run with the parallel runner replaced by a scripted one that delivers the jobs in a random order and a synthetic
+    worker whose output depends on (tuple of the sequence, trajectory) only.  Returns what the real aggregation put into the
+    tensor and the weights for every tuple, and the synthetic values."""
+    import mqt.yaqs.characterization.tomography.tomography as TM
+    from mqt.yaqs.core.data_structures.networks import MPO
+    from mqt.yaqs.core.data_structures.noise_model import NoiseModel
+    from mqt.yaqs.core.data_structures.simulation_parameters import AnalogSimParams
+
+    def synth(seq, t):
+        h = (sum((i + 1) * 17 * a for i, a in enumerate(seq)) + 7 * t) % 64
+        rho = np.array([[h / 64.0, (t + 1) / 8.0 + 0.25j * (seq[0] % 3)], [(t + 1) / 8.0 - 0.25j * (seq[0] % 3), 1 - h / 64.0]], dtype=complex)
+        w = (1 + (seq[-1] % 4) + t) / 8.0
+        return rho, w
+
+    seen = {}
+
+    def fake_runner(worker_fn, payload, n_jobs, max_workers, show_progress=False, desc="", **kw):  # noqa: ARG001
+        nt = payload["num_trajectories"]
+        seqs = payload["worker_sequences"]
+        seen["order"] = [tuple(x) for x in seqs]
+        for j in rng.permutation(n_jobs):
+            si, t = int(j) // nt, int(j) % nt
+            rho, w = synth(tuple(seqs[si]), t)
+            yield int(j), (si, t, [rho], w)
+
+    saved = TM.run_backend_parallel
+    TM.run_backend_parallel = fake_runner
+    try:
+        par = AnalogSimParams(observables=[], elapsed_time=0.1, dt=0.1, show_progress=False, get_state=True)
+        nm = NoiseModel([{"name": "pauli_z", "sites": [0], "strength": 0.1}]) if ntraj > 1 else None
+        pt = TM.run(MPO.ising(2, 1.0, 0.5), par, timesteps=[0.1] * k_steps, num_trajectories=ntraj, noise_model=nm)
+    finally:
+        TM.run_backend_parallel = saved
+    return pt, synth, seen.get("order", [])
+
+
+def bookkeeping_correspondence(ctx):
+    import itertools
+
+    for k in range(ctx.scale(4, 30)):
+        k_steps = 1 if k % 2 == 0 else 2
+        ntraj = int(ctx.rng.choice([1, 2, 3, 5]))
+        pt, synth, order = bookkeeping_trace(ctx.rng, k_steps, ntraj)
+        ctx.case(nontrivial_key=("bookkeeping", k_steps, ntraj, k) if ntraj > 1 else None, validated=True)
+        ctx.count("bookkeeping_runs")
+        if order == sorted(order):
+            ctx.notes.append("sequence list was not shuffled in this run")
+        worst, where = 0.0, None
+        for seq in itertools.product(range(16), repeat=k_steps):
+            # TomoAgg.tensor_at: the average over the trajectories of THIS tuple of weight * rho, and of the weight
+            want = sum(synth(seq, t)[0] * synth(seq, t)[1] for t in range(ntraj)) / ntraj
+            wantw = sum(synth(seq, t)[1] for t in range(ntraj)) / ntraj
+            got = pt.tensor[(slice(None), *seq)].reshape(2, 2)
+            dev = max(float(np.max(np.abs(got - want))), abs(float(pt.weights[seq]) - wantw))
+            if dev > worst:
+                worst, where = dev, seq
+        if worst > 1e-12:
+            ctx.mismatch("process-tensor entries after tomography.run's aggregation vs TomoAgg.tensor_at (own-tuple average)",
+                         {"steps": k_steps, "num_trajectories": ntraj, "tuple": where}, worst, 0.0, key="bookkeeping")
 
 
 def kraus_map(kind, rng):
